@@ -68,6 +68,7 @@ structure DefJ where
   derefO : Option DerefType := none
   derefMutO : Option DerefType := none
   intoO : Option IntoType := none
+  defO : Option DefType := none
   deriving Inhabited
 
 structure St where
@@ -209,6 +210,7 @@ def DefJ.intoTyOf (d : DefJ) (p : Pos) : Nat :=
   | none => 0
 
 def DefJ.defType (d : DefJ) : DefType :=
+  if let some t := d.defO then t else
   let mk (v : VariantJ) : DefVariant :=
     { name := v.name, shape := v.shape, fields := v.fields.toList.map (·.dflt), flag := v.dflag }
   if d.isUnion then .union ((d.variants[0]!).fields.toList.map (·.dflt))
@@ -343,8 +345,25 @@ def defE2E (dj : DefJ) (rec : Json) (methods : Json) (types : Json) : Except Str
           | none => pure none
         | none => pure none
       else pure none
+    -- Default: the expressions are numbered through the generator's ids, matched by (printed text, wrapped in Into::into)
+    let exprPairs : List ((String × Bool) × Nat) :=
+      (d.variants.zip dj.variants.toList).flatMap fun (v, vj) =>
+        (v.fields.zip vj.fields.toList).filterMap fun (f, fj) =>
+          match Educe.Bridge.defFieldAttr c false true f, fj.dflt.expr with
+          | .ok a, some id => a.expression.map fun e => (e, id)
+          | _, _ => none
+    let enum : String × Bool → Nat := fun e => ((exprPairs.find? fun p => p.1 == e).map (·.2)).getD 999
+    let defR ← if c.traits .default then
+        match firstMeta .default with
+        | some m => do
+          let ta ← fail "Default type attribute" (Educe.Attr.defaultTypeFromMeta { flag := true, new := true, expression := true, bound := true } m)
+          pure (ta.map fun ta => (Educe.Bridge.defType c enum,
+                  ({ typeExpr := match ta.expression with | some _ => dj.defCfg.typeExpr | none => none, new := ta.new } : DefCfg)))
+        | none => pure none
+      else pure none
     let ordMode := if c.traits .ord && c.traits .partialOrd then "both" else if c.traits .ord then "ord" else if c.traits .partialOrd then "partialord" else dj.ordMode
     pure { dj with eqO := eqO, hashO := hashO, ordO := ordO, cloneO := cloneO, dbgO := dbgO, derefO := derefO, derefMutO := derefMutO, intoO := intoO,
+                   defO := defR.map (·.1), defCfg := match defR with | some r => r.2 | none => dj.defCfg,
                    copy := if c.traits .clone then c.traits .copy else dj.copy, ordMode := ordMode }
 
 def handle (st : St) (j : Json) : St × Option Json :=
